@@ -673,9 +673,9 @@ func (s *Speller) Expr(e Expr) {
 			s.tok(".")
 			switch k := e.Key.(type) {
 			case *EStr:
-				s.tok(k.S)
+				s.atok(k.S, "attr", k.S)
 			case *ENum:
-				s.tok(k.Text)
+				s.atok(k.Text, "attr", k.Text)
 				// an index after a dot is complete as it stands: a dot that follows is the next access, not a
 				// decimal point, and may follow without a blank (rows.0.name)
 				s.prev = "]"
@@ -690,7 +690,7 @@ func (s *Speller) Expr(e Expr) {
 	case *EMethod:
 		s.Expr(e.X)
 		s.tok(".")
-		s.tok(e.Name)
+		s.atok(e.Name, "attr", e.Name)
 		s.tok("(")
 		s.list(e.Args)
 		s.tok(")")
